@@ -15,6 +15,7 @@ RULE = ("each local grid family (Trapezoidal boundary on/off, Simpson, Clenshaw-
         "volume (nodal families), exact integration of shifted tensor Legendre polynomials up to the nominal degree, and for the "
         "trapezoid family boundary-off = boundary-on minus exactly the points on the global boundary. distinct = digest(family, "
         "levels, box); non-trivial = sub-box != domain or anisotropic level vector")
+RULE += (" " + 'The grid object carries a history of 0..3 earlier setCurrentArea/get_points_and_weights calls on other boxes (incl. boxes glued to the global boundary), as the strategies reuse one object.')
 REQUIRED = ["count_matches", "points_inside", "weight_sum_is_volume", "polynomial_exactness", "trapezoid_boundary_off_consistent"]
 MIN_NONTRIVIAL = {"quick": 800, "thorough": 10000}
 CHUNK = {"quick": 120, "thorough": 1000}
